@@ -32,6 +32,50 @@ pub struct ModuleSpec {
     /// Path relative to ROOT, e.g. "m0.oal" or "d1/m2.oal".
     pub path: String,
     pub imports: Vec<Import>,
+    /// How *every* import of this module spells its file name: 0 plainly, 1 with a needless
+    /// percent escape of its first character, 2 with a doubled separator before it, 3 with a
+    /// fragment, 4 with a query. A file system takes all of these for the same file; each
+    /// module keeps one spelling throughout a graph (whether two such spellings are "the same
+    /// module" is not something the statement settles).
+    #[serde(default)]
+    pub odd: u8,
+}
+
+/// The file a URL denotes, as a file system sees it (escapes decoded, repeated separators
+/// and dot segments gone, fragment and query ignored).
+pub fn fkey(url: &str) -> String {
+    let Ok(u) = url::Url::parse(url) else { return url.to_string() };
+    let Ok(p) = u.to_file_path() else { return url.to_string() };
+    let parts: Vec<String> = p
+        .components()
+        .filter_map(|c| match c {
+            std::path::Component::Normal(s) => s.to_str().map(|x| x.to_string()),
+            _ => None,
+        })
+        .collect();
+    parts.join("/")
+}
+
+fn apply_odd(spelled: &str, odd: u8) -> String {
+    let (body, blank) = match spelled.strip_suffix(' ') {
+        Some(b) => (b, " "),
+        None => (spelled, ""),
+    };
+    let cut = body.rfind('/').map(|i| i + 1).unwrap_or(0);
+    let r = match odd {
+        1 if body.len() > cut && body.as_bytes()[cut].is_ascii_alphanumeric() => format!("{}%{:02X}{}", &body[..cut], body.as_bytes()[cut], &body[cut + 1..]),
+        2 => {
+            if cut > 0 {
+                format!("{}/{}", &body[..cut], &body[cut..])
+            } else {
+                format!(".//{body}")
+            }
+        }
+        3 => format!("{body}#v1"),
+        4 => format!("{body}?rev=2"),
+        _ => body.to_string(),
+    };
+    format!("{r}{blank}")
 }
 
 #[derive(Serialize, Deserialize, Clone, Debug, PartialEq)]
@@ -137,6 +181,10 @@ pub fn render_module(scn: &Scenario, idx: usize) -> String {
             Target::Missing(p) => p.clone(),
         };
         let s = spell(&m.path, &tpath, imp.spelling);
+        let s = match &imp.target {
+            Target::Module(t) => apply_odd(&s, scn.modules[*t].odd),
+            Target::Missing(_) => s,
+        };
         if imp.qualified {
             out.push_str(&format!("use \"{s}\" as q{k};\n"));
         } else {
@@ -184,7 +232,7 @@ impl<'a> SimLoader<'a> {
         let mut store = BTreeMap::new();
         let mut edges = 0;
         for (i, m) in scn.modules.iter().enumerate() {
-            store.insert(url_of(&m.path), (i, render_module(scn, i)));
+            store.insert(fkey(&url_of(&m.path)), (i, render_module(scn, i)));
             edges += m.imports.len();
         }
         SimLoader {
@@ -227,7 +275,7 @@ impl Loader<SimErr> for SimLoader<'_> {
         let url = loc.url().to_string();
         let n = self.n_valid;
         self.n_valid += 1;
-        let mut ans = self.store.contains_key(&url);
+        let mut ans = self.store.contains_key(&fkey(&url));
         if ans && self.calls <= self.budget {
             if self.fault(|f| *f == Fault::InvalidNth(n)).is_some() {
                 ans = false;
@@ -246,7 +294,7 @@ impl Loader<SimErr> for SimLoader<'_> {
         let url = loc.url().to_string();
         let n = self.n_load;
         self.n_load += 1;
-        let entry = self.store.get(&url).cloned();
+        let entry = self.store.get(&fkey(&url)).cloned();
         let Some((idx, text)) = entry else {
             self.events.push(Ev::Load(url.clone(), false));
             return Err(SimErr::Syntax(format!("load of unknown file {url}")));
@@ -262,7 +310,7 @@ impl Loader<SimErr> for SimLoader<'_> {
     fn parse(&mut self, loc: Locator, input: String) -> Result<Tree, SimErr> {
         self.tick()?;
         let url = loc.url().to_string();
-        let idx = self.store.get(&url).map(|e| e.0);
+        let idx = self.store.get(&fkey(&url)).map(|e| e.0);
         if let Some(idx) = idx {
             if let Some(k) = self.fault(|f| *f == Fault::ParseFail(idx)) {
                 self.events.push(Ev::Parse(url, false));
@@ -281,7 +329,7 @@ impl Loader<SimErr> for SimLoader<'_> {
     fn compile(&mut self, mods: &ModuleSet, loc: &Locator) -> Result<(), SimErr> {
         self.tick()?;
         let url = loc.url().to_string();
-        let idx = self.store.get(&url).map(|e| e.0);
+        let idx = self.store.get(&fkey(&url)).map(|e| e.0);
         if let Some(idx) = idx {
             if let Some(k) = self.fault(|f| *f == Fault::CompileFail(idx)) {
                 self.events.push(Ev::Compile(url, false));
@@ -402,7 +450,7 @@ fn viol(oracle: &str, detail: String) -> Option<Violation> {
 pub fn check(scn: &Scenario, out: &Outcome, faults_on: bool) -> Option<Violation> {
     let r = reference(scn);
     let url: Vec<String> = scn.modules.iter().map(|m| url_of(&m.path)).collect();
-    let idx_of = |u: &str| url.iter().position(|x| x == u);
+    let idx_of = |u: &str| url.iter().position(|x| fkey(x) == fkey(u));
 
     if let Verdict::Panic(msg) = &out.verdict {
         return viol("loader-panicked", msg.clone());
@@ -509,8 +557,9 @@ pub fn check(scn: &Scenario, out: &Outcome, faults_on: bool) -> Option<Violation
                     format!("Ok although cycle={} missing={:?}", r.cycle, r.missing),
                 );
             }
-            let want: BTreeSet<String> = r.reachable.iter().map(|i| url[*i].clone()).collect();
-            if *set != want {
+            let want: BTreeSet<String> = r.reachable.iter().map(|i| fkey(&url[*i])).collect();
+            let got: BTreeSet<String> = set.iter().map(|u| fkey(u)).collect();
+            if got != want || got.len() != set.len() {
                 return viol("module-set", format!("got {set:?} want {want:?}"));
             }
             for i in &r.reachable {
@@ -528,7 +577,7 @@ pub fn check(scn: &Scenario, out: &Outcome, faults_on: bool) -> Option<Violation
             }
         }
         Verdict::Invalid(u) => {
-            if !r.missing.contains(u) {
+            if !r.missing.iter().any(|m| fkey(m) == fkey(u)) {
                 return viol("spurious-invalid", format!("{u} is not a reachable missing import"));
             }
         }
@@ -580,6 +629,7 @@ pub fn sweep_scenario(mut i: u64) -> Scenario {
         modules.push(ModuleSpec {
             path: format!("m{a}.oal"),
             imports,
+            odd: 0,
         });
     }
     Scenario {
@@ -602,6 +652,7 @@ pub fn gen_scenario(rng: &mut Rng) -> Scenario {
             ModuleSpec {
                 path,
                 imports: vec![],
+                odd: 0,
             }
         })
         .collect();
@@ -679,6 +730,13 @@ pub fn gen_scenario(rng: &mut Rng) -> Scenario {
     }
     for m in modules.iter_mut() {
         rng.shuffle(&mut m.imports);
+    }
+    if rng.chance(1, 4) {
+        for m in modules.iter_mut().skip(1) {
+            if rng.chance(1, 2) {
+                m.odd = rng.range(1, 4) as u8;
+            }
+        }
     }
     Scenario {
         modules,
